@@ -74,6 +74,13 @@ def step (s : St) (t : List String) : Option (St × String) :=
       let o ← o.toNat?
       let tk := s.own.owners o
       pure (s, s!"tok={tk} unreg={if tk = 0 then 1 else 0}")
+  | ["ott", o] => do
+      let o ← o.toNat?
+      let tk := s.own.owners o
+      if tk = 0 then pure (s, "ok tt=null") else
+      match s.own.map.lookup tk with
+      | some v => pure (s, s!"ok tt=in same=1 rt={if v = 0 ∨ v = 2 ^ 64 then "null" else toString v}")
+      | none => pure (s, "abort")
   | ["olook", tk] => do
       let tk ← tk.toNat?
       pure (s, showTok (s.own.map.lookup tk))
